@@ -15,9 +15,9 @@ claimed = {
  "C04": e1("Every broadcast and every view increase in the explored space is checked against the node's exported Context at that instant (proposal origin, transactions, verification verdict, M preparations naming the proposal, M change views for the entered view from the monitor's own record).", "4 C04"),
  "C07": e1("Per-node callback order (PreCommit, ProcessPreBlock, Commit, NewBlockFromContext/Sign, ProcessBlock) is checked in every explored execution with anti-MEV on, switching on at the second height, and off, including failing ProcessPreBlock and Byzantine pre-commits.", "4 C07"),
  "C10": e1("After every API call of every explored execution the virtual timer of each undecided validator is compared with the node's (height, view); nested view changes during cached-payload replay are reached through the silent-primary bases and replay-order deviations.", "4 C10"),
- "C08": e1("Timed mode (virtual clock, zero-delay network = every message delivered before the next timer expires), all validators honest: every delivery order / duplicate / delayed Reset / held message / cached-payload replay order within <=k deviations of FIFO for N=1..7, every interleaving at two focus nodes for N=4; oracle: every node decides every height in view 0 on one hash, no ChangeView or RecoveryRequest is ever broadcast, no stuck terminal state.", "4 C08"),
+ "C08": e1("Timed mode (virtual clock, zero-delay network = every message delivered before the next timer expires), all validators honest: every delivery order / duplicate / delayed Reset / held message / cached-payload replay order within <=k deviations of FIFO for N=1..7, every interleaving at two focus nodes for N=4; plus E2 saturation strata: one real node (backup or primary, N=4..7, anti-MEV off/on) receives the complete fault-free message set of a round, each payload once, in EVERY order, and must have accepted the block in every terminal state; oracle: every node decides every height in view 0 on one hash, no ChangeView or RecoveryRequest is ever broadcast, no stuck terminal state.", "4 C08"),
  "C13": e1("A watch-only member (flag at every validator position, or outside the list) is explored in closed-world runs and alone against the unconstrained E2 environment alphabet; the oracle is zero Broadcast / Sign / SetData calls in every state.", "4 C13"),
- "C16": e1("Timed mode with the maximum-block-time extension: 170 scenarios (ratios, N, instants at which a transaction appears, anti-MEV) each explored with <=k deviations in delivery/notification order; oracle on virtual-time stamps of proposals, subscription calls and absence of ChangeView/RecoveryRequest; control group without the extension.", "4 C16"),
+ "C16": e1("Timed mode with the maximum-block-time extension: 170 scenarios (ratios, N, instants at which a transaction appears, anti-MEV) each explored with <=k deviations in delivery/notification order (incl. one node's OnNewTransaction notification outrun by the message traffic); oracle on virtual-time stamps of proposals, subscription calls and absence of ChangeView/RecoveryRequest; control group without the extension.", "4 C16"),
  "C17": dict(level="model_checking", engine="E5", technique="stateless exploration of delivery schedules (deviation-bounded) of the real simulation program under testing/synctest with harness-controlled channels and virtual time", text="The real package main of internal/simulation (real Run goroutines, Broadcast, ProcessBlock, timer.Timer) is executed in a synctest bubble where the harness alone decides which pending payload is delivered next and when a virtual second passes; all schedules with <=1 (quick) / <=2 (thorough) deviations (queue jump, hold until quiescence, early second) are executed for validator counts 1..7, watchers, blocked validator; plus a free-running -race pass.", note="Trusted: go1.26.8 testing/synctest; the independence argument for node goroutines between harness steps (they share only the channels the harness serialises).", design="4 C17"),
  "C05": e1("E2 exploration of one real node over two heights with the twin (differential) oracles evaluated in every state reached by a Reset or ledger skip, plus closed-world 3-height runs; monitors for single decision, quiescence until Reset (whole-struct fingerprint), clean re-initialisation and cache hygiene. The differential oracle needs no hand-written expected value: the same node is compared with itself under a permuted history and with a freshly started node.", "4 C05"),
  "C09": e1("Fault enumeration in timed mode: every silent validator / silent primary set, every cut set of N=4 at every instant of the default schedule for three durations, every restart instant, then <=k delivery deviations in the synchronous period; bounded-liveness oracle counted in timer expiries; a stuck terminal state is reported with its heights and views.", "4 C09"),
